@@ -4,6 +4,7 @@ import (
 	"errors"
 	"fmt"
 	"reflect"
+	"runtime"
 	"sort"
 	"strings"
 	"time"
@@ -89,6 +90,33 @@ func (rt *RT) cbNested(id int, spec *Reenter, cbErr error) {
 		err = rt.scopeOf(spec.S).Invoke(rt.Materialise(nf))
 	}()
 	rt.Log = append(rt.Log, Event{Kind: EvNested, Op: rt.curOp, Fn: nf.ID, SideScope: spec.S, SideErr: err, Active: act})
+}
+
+// PanicSlice is a panic value whose type is not comparable (Fn.PK == 6).
+type PanicSlice []int
+
+// runtimePanicMarker stands for "a runtime.Error raised by a nil-map write in
+// the body" (Fn.PK == 7): the value itself is made by the Go runtime.
+var runtimePanicMarker = &struct{ s string }{"runtime error provoked by the body"}
+
+// samePanic: got is the value that the execution panicked with (want, from
+// panicOf); safe for values that are not comparable.
+func samePanic(got, want interface{}) bool {
+	if want == interface{}(runtimePanicMarker) {
+		re, ok := got.(runtime.Error)
+		return ok && strings.Contains(re.Error(), "nil map")
+	}
+	if ws, ok := want.(PanicSlice); ok {
+		gs, ok := got.(PanicSlice)
+		return ok && len(gs) == len(ws) && len(gs) > 0 && &gs[0] == &ws[0]
+	}
+	if _, ok := got.(PanicSlice); ok {
+		return false
+	}
+	if _, ok := got.(runtime.Error); ok {
+		return false
+	}
+	return got == want
 }
 
 // CBPanicVal is what a panicking callback panics with.
@@ -268,6 +296,10 @@ func (rt *RT) panicOf(fn, exec int) interface{} {
 		e = fmt.Sprintf("panic of f%d exec %d", fn, exec)
 	case 5:
 		e = &PanicErr{Fn: fn, Exec: exec, Inner: foreignPanicErr}
+	case 6:
+		e = PanicSlice{fn, exec} // a value of a type that is not comparable
+	case 7:
+		e = runtimePanicMarker // the body provokes a real runtime error
 	default:
 		e = &PanicVal{fn, exec}
 	}
@@ -304,6 +336,14 @@ func paramTag(p Param) reflect.StructTag {
 		}
 		parts = append(parts, fmt.Sprintf("group:%q", g))
 	}
+	if p.ET {
+		if p.Name == "" {
+			parts = append(parts, `name:""`)
+		}
+		if p.Group == "" {
+			parts = append(parts, `group:""`)
+		}
+	}
 	return reflect.StructTag(strings.Join(parts, " "))
 }
 
@@ -321,6 +361,14 @@ func resultTag(r Result) reflect.StructTag {
 			g += ",flatten"
 		}
 		parts = append(parts, fmt.Sprintf("group:%q", g))
+	}
+	if r.ET {
+		if r.Name == "" {
+			parts = append(parts, `name:""`)
+		}
+		if r.Group == "" {
+			parts = append(parts, `group:""`)
+		}
 	}
 	return reflect.StructTag(strings.Join(parts, " "))
 }
@@ -632,7 +680,12 @@ func (rt *RT) call(f *Fn, args []reflect.Value) []reflect.Value {
 	}
 	if outcome == FaultPanic {
 		rt.Log = append(rt.Log, Event{Kind: EvExit, Op: rt.curOp, Fn: f.ID, Exec: exec, Outcome: FaultPanic})
-		panic(rt.panicOf(f.ID, exec))
+		pv := rt.panicOf(f.ID, exec)
+		if pv == interface{}(runtimePanicMarker) {
+			var nilMap map[int]int
+			nilMap[f.ID] = exec // runtime error: assignment to entry in nil map
+		}
+		panic(pv)
 	}
 	if outcome == FaultError && !f.Err {
 		outcome = FaultOK // no error result to fail with
